@@ -267,3 +267,7 @@ REQUIRED_THEOREMS["C01"] += ["C01_user_updateSeg", "C01_step_paint", "C01_user_a
 REQUIRED_THEOREMS["C02"] += ["C02_session_valid", "C02_session_valid_of"]
 REQUIRED_THEOREMS["C03"] += ["C03_reach", "C03_reach_of", "C03_reach_ids_of", "C03_inv_congr_E"]
 REQUIRED_THEOREMS["C11"] += ["C11_updateSeg_refused"]
+
+REQUIRED_THEOREMS["C03"] += ["C03_checkers_sound", "C03_reach_checked", "C03_reach_checked_prefix"]
+REQUIRED_THEOREMS["C02"] += ["C02_session_valid_checked"]
+REQUIRED_THEOREMS["C01"] += ["C01_user_all_checked"]
